@@ -12,6 +12,7 @@ import (
 
 	"github.com/goreleaser/nfpm/v2"
 
+	"verifharness/internal/dec"
 	"verifharness/internal/ev"
 	"verifharness/internal/gen"
 )
@@ -322,7 +323,7 @@ func c06(run *ev.Run, tier string) {
 			hidden := rf.path + ".verif-hidden"
 			modes := []string{"removed"}
 			if rf.asDir {
-				modes = append(modes, "replaced-by-directory")
+				modes = append(modes, "replaced-by-directory", "replaced-by-dangling-symlink")
 			}
 			for _, mode := range modes {
 				if err := os.Rename(rf.path, hidden); err != nil {
@@ -331,6 +332,9 @@ func c06(run *ev.Run, tier string) {
 				}
 				if mode == "replaced-by-directory" {
 					_ = os.Mkdir(rf.path, 0o755)
+				}
+				if mode == "replaced-by-dangling-symlink" {
+					_ = os.Symlink(rf.path+".nowhere", rf.path)
 				}
 				for _, f := range rf.formats {
 					atomic.AddInt64(&srcFaults, 1)
@@ -342,7 +346,7 @@ func c06(run *ev.Run, tier string) {
 						run.Violate("C06/"+f+"/source-fault-reported-as-success/"+rf.what+"/"+mode, map[string]any{"case": 1000 + ci, "path": rf.path})
 					}
 				}
-				if mode == "replaced-by-directory" {
+				if mode != "removed" {
 					_ = os.Remove(rf.path)
 				}
 				_ = os.Rename(hidden, rf.path)
@@ -458,6 +462,9 @@ func c06(run *ev.Run, tier string) {
 		{"content-collision", formats, func(s *gen.Spec) {
 			s.Contents = append(s.Contents, &gen.Content{Src: payload, Dst: "/opt/loud/p.txt"})
 		}},
+		{"rpm-epoch-beyond-32-bits", []string{"rpm"}, func(s *gen.Spec) { s.Epoch = "4294967296" }},
+		{"rpm-epoch-beyond-32-bits-large", []string{"rpm"}, func(s *gen.Spec) { s.Epoch = "18446744073709551615" }},
+		{"rpm-epoch-negative", []string{"rpm"}, func(s *gen.Spec) { s.Epoch = "-1" }},
 		{"apk-signature-without-key-name-or-maintainer-mail", []string{"apk"}, func(s *gen.Spec) {
 			s.APK.Sig.KeyFile = testKey("rsa_unprotected.priv")
 			s.Maintainer = "no mail address here"
@@ -475,6 +482,49 @@ func c06(run *ev.Run, tier string) {
 				run.Violate("C06/"+f+"/invalid-setting-panic/"+iv.class, map[string]any{"panic": pn})
 			} else if err == nil {
 				run.Violate("C06/"+f+"/invalid-setting-reported-as-success/"+iv.class, map[string]any{"output_bytes": buf.Len()})
+			}
+		}
+	}
+	// settings that some archive formats cannot encode (owner/group names beyond
+	// the 32 bytes of a GNU/ustar header field): packaging either fails or ships
+	// the entry as declared - it never succeeds without the entry
+	long := strings.Repeat("o", 40)
+	for _, kind := range []string{"file", "dir", "symlink", "tree"} {
+		for _, f := range formats {
+			s := base()
+			e := &gen.Content{Type: kind, Dst: "/opt/loud/long-owner", FI: &gen.FI{Owner: long, Group: long}}
+			switch kind {
+			case "file":
+				e.Src = payload
+			case "symlink":
+				e.Src = "/nonexistent-verif/t"
+			case "tree":
+				td := filepath.Join(dir, "lo-tree")
+				_ = os.MkdirAll(filepath.Join(td, "sub"), 0o755)
+				_ = os.WriteFile(filepath.Join(td, "sub", "f"), []byte("f\n"), 0o644)
+				e.Src = td
+			}
+			s.Contents = append(s.Contents, e)
+			atomic.AddInt64(&invalids, 1)
+			run.Case("unencodable|long-owner|"+kind+"|"+f, true)
+			var buf bytes.Buffer
+			err, pn := packageTo(s.YAML(), f, &buf, nil)
+			if pn != "" {
+				run.Violate("C06/"+f+"/invalid-setting-panic/long-owner-"+kind, map[string]any{"panic": pn})
+				continue
+			}
+			if err != nil {
+				continue // loud
+			}
+			p := dec.Decode(f, buf.Bytes(), false)
+			ent := p.Find("/opt/loud/long-owner")
+			switch {
+			case len(p.Errs) > 0:
+				run.Violate("C06/"+f+"/success-with-undecodable-output/long-owner-"+kind, map[string]any{"errors": p.Errs})
+			case ent == nil:
+				run.Violate("C06/"+f+"/entry-silently-dropped/long-owner-"+kind, map[string]any{})
+			case kind != "symlink" && (ent.Owner != long || ent.Group != long):
+				run.Violate("C06/"+f+"/entry-silently-altered/long-owner-"+kind, map[string]any{"owner": ent.Owner, "group": ent.Group})
 			}
 		}
 	}
